@@ -351,15 +351,22 @@ class Bincount(C13Entry):
         return self._term("k_bincount_x", c, out, zones=True)
 
     def flagged(self, c, out):
-        return out[0] == "ok" and len(out[1]["zones"]) > 0
+        # since fixes/C13/0002 (margin around the search cap) no failure of bincount belongs to the known class
+        # C13.kf_cos_resolution; Exec.k_bincount_x is kept only to re-examine old replays by hand
+        return False
 
     def classify(self, c, out, v):
-        k = C13Entry.classify(self, c, out, v)
-        if k is not None or out[0] != "ok":
-            return k
+        if out[0] != "ok":
+            return None
         # not a known finding.  A diagnostic label (never listed in known_findings.json, so still a VIOLATION)
         # keeps the replay of a bin-0 excess caused by separations below rmin apart from other failures
         o = out[1]
+        nbin = c["nbin"]
+        for i1, row in enumerate(o["pairs"]):
+            cov = set(o["covers"][i1])
+            for i2, (t, x) in enumerate(row):
+                if t == 1 and 0 <= x < nbin * 2 ** 40 and o["ids2"][i2] not in cov:
+                    return "C13.diag_cover_misses_pair"       # H_cover violated: the defect repaired by fixes/C13/0002
         flat = [p for row in o["pairs"] for p in row]
         floor0 = sum(1 for t, x in flat if t == 1 and 0 <= x < 2 ** 40)
         amb0 = sum(1 for t, x in flat if t == 2 and x in (0, 1))
